@@ -205,7 +205,7 @@ impl Check for C20 {
 
     fn runs(&self, tier: Tier) -> u64 {
         match tier {
-            Tier::Quick => MATRIX * 250,
+            Tier::Quick => MATRIX * 1500,
             Tier::Thorough => MATRIX * 20_000,
         }
     }
